@@ -56,7 +56,11 @@ func genSignCase(r *rand.Rand, forceMatrix, forcePlugins bool) (*signCase, error
 	sc := &signCase{Step: cs, Text: text, Penv: map[string]string{}}
 	// pipeline env: disjoint names, plus overlaps with the step env
 	for i, n := 0, r.IntN(4); i < n; i++ {
-		sc.Penv[fmt.Sprintf("PIPE_%d", i)] = gen.String(r, gen.StringOpts{Tricky: true})
+		v := gen.String(r, gen.StringOpts{Tricky: true})
+		if r.IntN(4) == 0 {
+			v = "" // a signed variable may well be empty
+		}
+		sc.Penv[fmt.Sprintf("PIPE_%d", i)] = v
 	}
 	for k := range cs.Env {
 		if r.IntN(3) == 0 {
